@@ -1,11 +1,12 @@
 from common import T_COMMON
 
 CFG = dict(
-    modules=["PolyVerif.Props.C06", "PolyVerif.Props.C06Scene", "PolyVerif.Props.C06Data", "PolyVerif.Props.C06Tables", "PolyVerif.Props.C06Carry", "PolyVerif.Props.C06Valid", "PolyVerif.Props.C06Dedup", "PolyVerif.Props.C06Full", "PolyVerif.Props.C06Equal"],
+    modules=["PolyVerif.Props.C06", "PolyVerif.Props.C06Scene", "PolyVerif.Props.C06Data", "PolyVerif.Props.C06Tables", "PolyVerif.Props.C06Carry", "PolyVerif.Props.C06Valid", "PolyVerif.Props.C06Dedup", "PolyVerif.Props.C06Full", "PolyVerif.Props.C06Equal", "PolyVerif.Props.C06Zip", "PolyVerif.Props.C06Mat", "PolyVerif.Props.C06Node"],
     # property theorems (audited); scene_* quantify over EVERY well-formed scene, gltf_* over every admissible write sequence
     theorems=["scene_inv", "scene_valid_low", "gltf_refs_in_range", "scene_refs_ok", "gltf_node_trs",
               "scene_dinv", "gltf_prims_consistent", "scene_prims_ok", "gltf_carries_scene", "gltf_extensions_declared", "scene_nodes_ok", "gltf_scene_valid",
               "gltf_dedup_consistent", "addMaterial_dedup", "addMesh_dedup", "gltf_scene_full_partial", "exScene_wf", "gltf_equal_equivalence",
+              "addMaterial_shown", "gltf_dedup_ok", "gltf_scene_full", "exScene_wf2", "gltf_dedup_samplername_counterexample",
               "gltf_bytesWritten_eq_len", "gltf_views_tile", "gltf_accessor_fits", "gltf_minmax",
               "gltf_decode_image", "gltf_decode_indices", "gltf_index_width",
               "glb_frame_length", "glb_frame", "glb_frame_bin",
@@ -14,7 +15,8 @@ CFG = dict(
     helper_theorems=["leVal_leBytes", "decodeN_encodeComps", "isMinOf_fold", "isMaxOf_fold", "tiles_append", "tiles_inside",
                      "tiles_disjoint", "decodeAcc_append", "accOK_append", "accOK_new_vec", "boundsOK_vec", "inv_step", "inv_run",
                      "inv_addMesh", "inv_addInstances", "inv_addModel", "lowEq_addMaterial", "lowEq_addTexture",
-                     "addMaterial_refs", "addMesh_refs", "addInstances_refs", "addModel_refs", "addLight_refs", "mrefs_mono", "gltf_refs_in_range_partial", "addTexture_trefs", "addMaterial_trefs", "dinv_addMesh", "dinv_addModel", "addModel_carries", "addModels_carries", "addLights_carries", "carries_of_Carries", "addInstances_carried", "scene_nodes_structure", "scene_xinv", "addMaterial_xinv", "addTexture_xinv"],
+                     "addMaterial_refs", "addMesh_refs", "addInstances_refs", "addModel_refs", "addLight_refs", "mrefs_mono", "gltf_refs_in_range_partial", "addTexture_trefs", "addMaterial_trefs", "dinv_addMesh", "dinv_addModel", "addModel_carries", "addModels_carries", "addLights_carries", "carries_of_Carries", "addInstances_carried", "scene_nodes_structure", "scene_xinv", "addMaterial_xinv", "addTexture_xinv",
+                     "addTexture_data", "matCarried_of_shown", "matShown_congr", "samplerCongr", "addModel_dnode", "addModels_dnode", "matT_unique", "zip_mergeSort"],
     streams=[dict(name="c06", n=dict(quick=150, thorough=15000))],
     trusted=T_COMMON + [
         "hand-written model PolyVerif/Model/Gltf.lean of formats/gltf/{writer,write,model,model_trackers}.go, tied by exact comparison of the parsed document, the buffer bytes and the GLB file bytes (stream c06)",
@@ -22,7 +24,7 @@ CFG = dict(
         "float64→float32 narrowing: Lean Float.toFloat32 in the driver vs Go float32(x), compared bit-for-bit through the buffer bytes",
         "colour factors roundFloat(c/65535,3) computed at Float in the model, compared bit-for-bit"],
     residue=[
-        "C06_scene_full (def in Props/C06Scene.lean: ∀ s w, writeScene s = .ok w → valid ∧ carriesScene ∧ dedupOK) is proved EXCEPT its third conjunct: gltf_scene_full_partial proves, for every well-formed scene (SceneWF: MeshWF meshes, admissible instances, a written attribute whenever there are indices, pairwise different glTF attribute names per mesh), valid w.doc w.buf (ALL of it: gltf_scene_valid) ∧ carriesScene s w.doc w.buf (ALL of it: gltf_carries_scene) ∧ the table-level dedup invariants MatT ∧ MeshT (gltf_dedup_consistent, with addMaterial_dedup / addMesh_dedup describing each call exactly). MISSING: dedupOK s w.doc = true itself, i.e. (i) matCarried — the material a model's primitive references SHOWS that model's material (factors, colours, each texture reference resolving through textures → images/samplers to the texture's URI, sampler, transform), (ii) the node-level restatement of the two table invariants (same (mesh id, material) ⇔ same node.mesh), (iii) no duplicates in textures/images/samplers, (iv) symmetry/transitivity of PolyformMaterial.equal (so that two models with mutually `equal` materials provably share an index). These stay corresponded exactly (c06.doc) and oracle-checked (c06.holds.dedup) on every run.",
+        "gltf_scene_full proves, for every scene satisfying SceneWF2 (MeshWF meshes, admissible instances, a written attribute whenever there are indices, pairwise different glTF attribute names per mesh, and ExtCongr = the meaning of eqKey: material-extension values with the same id and key are the same value) that the writer accepts: valid ∧ carriesScene ∧ dedupOK — ALL three oracle predicates. The unconditional def C06_scene_full (same without hypotheses) is not a theorem and is not expected to be: an ill-formed mesh (index out of range, attribute arrays of different lengths) is written as it is. The alignment clause stays false + known.",
         "scene theorems need well-formedness hypotheses only where the property itself presupposes them: gltf_refs_in_range, gltf_extensions_declared, gltf_dedup_consistent, gltf_node_trs hold for EVERY accepted scene; scene_valid_low / gltf_prims_consistent / gltf_carries_scene / gltf_scene_valid need SceneOK (+ a written attribute when there are indices; + distinct glTF attribute names for carriesScene)",
         "carries (Model/GltfSpec): the conjunct `p.attrs.length == m.written.length` was replaced by `every key of p.attrs is the glTF name of a written attribute`; together with `every written attribute is present` this is the same on parsed documents (keys of a JSON object are unique)",
         "C06_alignment (full clause) is false of the code: gltf_alignment_counterexample; proved part gltf_alignment_partial (all vectors FLOAT, every index block a multiple of 4 bytes) — at write level",
